@@ -54,6 +54,7 @@ def run_task_child(tid, conn, workers):
             ob = obl[x["idx"]]
             x["expect"] = ob.get("expect", "proved")
             x["hints"] = ob.get("hints")
+            x["unfinished"] = ob.get("unfinished")
             x.pop("model_obj_idx", None)
         out["results"] = res
         out["t_solve"] = round(time.time() - t1, 2)
@@ -154,6 +155,7 @@ def check(prop, tier, seed):
     samples = []
     canaries = {"expected_to_fail": 0, "failed_as_expected": 0}
     vacuity_errors = []
+    unfinished = []
     for tid in tids:
         r = results[tid]
         if r["status"] != "ok":
@@ -174,6 +176,10 @@ def check(prop, tier, seed):
                     vacuity_errors.append(f"canary `{x['name']}` of task {tid} was proved: hypotheses are contradictory")
                 else:
                     canaries["failed_as_expected"] += 1
+                continue
+            if x.get("unfinished") and x["verdict"] != "proved":
+                # a proof that was never completed on a correct tree is not a violation: the clause is reported as not decided and not counted
+                unfinished.append({"obligation": f"{prop}/{x['name']}", "reason": x["unfinished"], "verdict": x["verdict"]})
                 continue
             n_obl += 1
             if x["verdict"] == "proved":
@@ -263,7 +269,8 @@ def check(prop, tier, seed):
         "samples": samples or [{"note": "no obligation discharged"}],
         "canaries": canaries,
         "bounded_standins": bounded,
-        "not_decided": pinfo.get("not_decided", []),
+        "not_decided": pinfo.get("not_decided", []) + [u["obligation"] + " (unfinished proof: " + u["reason"] + ")" for u in unfinished],
+        "unfinished_proofs": unfinished,
         "known_findings_seen": known_lines,
         "explanation": pinfo.get("explanation", ""),
         "evaluations": n_obl, "distinct_nontrivial": len({x["name"] for tid in tids for x in results[tid]["results"] if x["expect"] != "fail"}),
